@@ -3,6 +3,7 @@ import Proofs.C19.Wire
 import Proofs.C19.P2p
 import Proofs.C19.Desc
 import Proofs.C19.MsText
+import Proofs.C19.TapTree
 /-!
 # C19 — hostile input: parsers are total, read exactly what they return, and build nothing the
 input did not pay for
@@ -342,5 +343,52 @@ theorem miniscript_parse_fuel_suffices (ctx : Miniscript.Ctx) (s : List Char) (k
   Miniscript.parseSyntax_fuel ctx s k
 
 example : Base58.decode (fun _ => []) (List.replicate 113 49) none = .error .tooLong := by decide
+
+/-! ## depth of the recursive readers -/
+
+/-- `script.taproot.tree_helper` (model `Btc.TapTree.subtree` of `_subtree_helper`, any Python value): a node met below more
+    than `maxDepth` branches is refused BEFORE it is looked at (whatever it is); a tree that is accepted at `depth` nests at
+    most `maxDepth - depth` further on either side, so the descent never holds more than `maxDepth + 1` frames; and the
+    bound is not otherwise a reason of refusal: a larger bound gives the same tree.  The model is structurally recursive in
+    the value (no fuel); that btclib passes `depth + 1` to both subtrees and compares with the GENERATED
+    `MAX_TREE_DEPTH` is tied by the `treehelper` stream and by `recursive_functions_are_enumerated`. -/
+theorem taproot_tree_helper_depth_bounded (M : Nat) (v : TapTree.PyVal) (d : Nat) :
+    (d > M → TapTree.subtree M d v = .error .deep) ∧
+    (∀ t, TapTree.subtree M d v = .ok t → d + t.depth ≤ M) ∧
+    (∀ t M', M ≤ M' → TapTree.subtree M d v = .ok t → TapTree.subtree M' d v = .ok t) :=
+  ⟨TapTree.subtree_deep M d v, TapTree.subtree_depth M v d, fun t M' h => TapTree.subtree_mono M M' h v d t⟩
+
+/-- the public entry point with the generated bound: an accepted script tree nests at most `MAX_TREE_DEPTH`. -/
+theorem taproot_tree_helper_accepts_within_limit (v : TapTree.PyVal) (t : Tree Nat)
+    (h : TapTree.treeHelper v = .ok t) : t.depth ≤ Gen.Limits.MAX_TREE_DEPTH := by
+  have := TapTree.subtree_depth _ v 0 t h
+  omega
+
+example : TapTree.subtree 1 0 (.two true (.one true (.two false (.int 0xC1) (.script true)))
+      (.two true (.one true (.two false (.int 0xC0) (.script true))) (.one true (.two false (.int 0xC0) (.script true)))))
+    = .error .deep := by decide
+example : TapTree.subtree 2 0 (.two true (.one true (.two false (.int 0xC1) (.script true)))
+      (.two true (.one true (.two false (.int 0xC0) (.script true))) (.one true (.two false (.int 0xC0) (.script true)))))
+    = .ok (.node (.leaf 0xC0) (.node (.leaf 0xC0) (.leaf 0xC0))) := by decide
+
+/-- the recursive functions of the package, read off the source on every run (the cyclic components of every module's
+    call graph, `tools/specs/limits.py`): there are exactly 22; NONE of them is named like a reader (parse, from_dict,
+    from_json, decode, deserialize, deserialize_map, b58decode/b64decode, from_script, op_code_spans): script decode,
+    `Witness.parse`, every `from_dict` and the miniscript text and script readers are LOOPS, whose Python stack does not grow
+    with the input (nesting to 10^4 is driven at them by the `deep` group); exactly two recursions carry a depth guard,
+    `descriptors._parse_tree` and the one under `taproot.tree_helper`, and both guards are the generated `MAX_TREE_DEPTH`.
+    A new recursive function, a recursive reader, or a dropped guard changes the table and breaks this obligation.
+    (The unguarded ones walk objects a guarded parser built, unwrap one layer, or recurse on a scalar's bits; they are
+    held to the RecursionError oracle, not proved bounded here.) -/
+theorem recursive_functions_are_enumerated :
+    Gen.Limits.recursiveFunctions.length = 22 ∧
+    (∀ r ∈ Gen.Limits.recursiveFunctions, r.2.1 = 0) ∧
+    (Gen.Limits.recursiveFunctions.filter (fun r => r.2.2 != 0)).length = 2 ∧
+    Gen.Limits.recursiveGuarded = 2 ∧
+    Gen.Limits.treeHelperIsRecursive = true ∧
+    Gen.Limits.treeHelperGuard = Gen.Limits.MAX_TREE_DEPTH ∧
+    Gen.Limits.parseTreeGuard = Gen.Limits.MAX_TREE_DEPTH ∧
+    Gen.Limits.MAX_TREE_DEPTH = Gen.Descriptor.MAX_TREE_DEPTH := by
+  decide
 
 end Props.C19
